@@ -16,7 +16,14 @@ import numpy as np
 from .. import models
 from ..core import RunResult, adigest, mix
 from ..driver import pristine_library_state
-from .hist_common import SAME, TAU, call_value, quiet, with_entropy
+from .hist_common import SAME, TAU, quiet, with_entropy
+from .hist_common import call_value as _call_value
+from .pool_common import maybe_integer_dtype, symmetric_game
+
+
+def call_value(fn, res, label):
+    return _call_value(fn, res, label, prop="C07")
+
 
 NAME = "B"
 PROPERTY = "C07"
@@ -56,13 +63,15 @@ def draw_tensor_game(st, max_out=3, max_in=3, like=None):
         a_out, b_out, a_in, b_in = like["shape"]
     rng = st.nprng()
     shape = (a_out, b_out, a_in, b_in)
-    pk = st.weighted([("binary", 4), ("fractional", 3), ("sparse_binary", 2), ("functional", 3)])
+    pk = st.weighted([("binary", 4), ("fractional", 3), ("sparse_binary", 2), ("functional", 3), ("symmetric", 3)])
     if pk == "binary":
         pred = (rng.random(shape) < 0.5).astype(float)
     elif pk == "sparse_binary":
         pred = (rng.random(shape) < 0.25).astype(float)
     elif pk == "fractional":
         pred = rng.random(shape)
+    elif pk == "symmetric":
+        pred = None
     else:
         # win iff (a + b) mod m == f(x, y): generalised XOR-like games, usually with a quantum gap
         m = max(a_out, b_out)
@@ -80,7 +89,13 @@ def draw_tensor_game(st, max_out=3, max_in=3, like=None):
             if prob.sum() == 0:
                 prob[0, 0] = 1.0
         prob = prob / prob.sum()
-    return prob, pred, {"kind": "tensor", "shape": list(shape), "pred_kind": pk, "prob_kind": qk}
+    meta = {"kind": "tensor", "shape": list(shape), "pred_kind": pk, "prob_kind": qk}
+    if pk == "symmetric":
+        prob, pred, meta["symmetric"] = symmetric_game(st, rng, shape, prob)
+    pred, dt = maybe_integer_dtype(st, pred)
+    if dt is not None:
+        meta["pred_dtype"] = dt
+    return prob, pred, meta
 
 
 def draw_bcs(st, like=None):
